@@ -235,7 +235,7 @@ def case_decompress(batch, sbits, rule, d, klass='decompress', expect=None, side
             out2 = obs_bits(with_timeout(lambda: decompress(mk(sbits, side), r2, direction=d) if d is not None else decompress(mk(sbits, side), r2)))
             if out2 != out:
                 fails.append('decompress with the rule reloaded from its JSON form gives %s, with the original objects %s' % (str(out2)[:120], str(out)[:120]))
-    desc = dict(layer='schc', op='decompress', schc=sbits, rule=nr, direction=dopt(d), side='L' if side == L else 'R')
+    desc = dict(layer='schc', op='decompress', schc=sbits, rule=nr, direction=dopt(d), side='L' if side == L else 'R', expect=expect, total=total)
     if extra:
         desc.update(extra)
     batch.add(klass, line, out, parse_model_bits, fails if (expect is not None or total or fails) else None, desc, key=('decompress', line))
